@@ -59,6 +59,19 @@ def qvec(rng, n, kind, r=2):
         return rng.choice(np.array([-120, -100, 0, 1, 100, 127]), size=n).astype(np.int8)
     if kind == 'negative':
         return -rng.integers(0, 2 * r + 1, size=n)
+    if kind == 'aliased':
+        # distinct charges that coincide modulo 2**32 / 2**16 / 2**31 / 2**53, interleaved: composite sort keys, narrowed copies, float round trips and
+        # hashes truncated to a machine word confuse them
+        b = int(rng.integers(-3, 6))
+        step = int(rng.choice([1 << 32, 1 << 32, 1 << 16, 1 << 31, 1 << 53, 1 << 8]))
+        pool = np.array([b, b + step, b - step, b + 2 * step, b + 1, b + 1 + step], dtype=np.int64)
+        return pool[rng.integers(0, int(rng.integers(2, len(pool) + 1)), size=n)]
+    if kind == 'int-extremes':
+        # labels at the limits of their integer type (largest / smallest representable value and their neighbours): q + 1, -q, q1 - q0 wrap around
+        dt = [np.int8, np.int16, np.int32, np.int64][int(rng.integers(0, 4))]
+        ii = np.iinfo(dt)
+        pool = np.array([ii.max, ii.max - 1, ii.max - 2, 0, 1, ii.min + 1, ii.min + 2][:int(rng.integers(3, 8))], dtype=dt)
+        return pool[rng.integers(0, len(pool), size=n)]
     raise ValueError(kind)
 
 
@@ -963,3 +976,18 @@ def structured_block_mpo(rng, d, L, Dmax=3, cplx=True):
     op = ptn.MPO(np.zeros(d, dtype=int), [np.zeros(Di, dtype=int) for Di in D], fill='postpone')
     op.A = [structured_operator_tensor(rng, d, D[i], D[i + 1], cplx) for i in range(L)]
     return op
+
+
+def funnel_hermitian_mpo(rng, d, L, cplx=True):
+    """
+    Hermitian MPO M + M^dagger without quantum numbers whose bond dimensions vary STRONGLY from bond to bond (profiles such as 1-3-9-2-3-1 or 1-4-5-1-4-1
+    before doubling): bonds much larger than d^2 times their neighbour (funnels), bonds of dimension one in the interior, complex non-symmetric blocks.
+    """
+    dims = [1] + [int(rng.choice([1, 1, 2, 3, 4, 5, 6])) for _ in range(L - 1)] + [1]
+    qd = np.zeros(d, dtype=int)
+    M = ptn.MPO(qd, [np.zeros(D, dtype=int) for D in dims], fill='postpone')
+    for i in range(L):
+        shape = (d, d, dims[i], dims[i + 1])
+        A = rng.normal(size=shape) + (1j * rng.normal(size=shape) if cplx else 0)
+        M.A[i] = A / np.sqrt(d * shape[2])
+    return mpo_sum(M, mpo_dagger(M))
